@@ -14,3 +14,5 @@ mod c13;
 pub(crate) mod maps;
 #[path = "/verif/kani/lib/c14.rs"]
 mod c14;
+#[path = "/verif/kani/lib/c11.rs"]
+pub(crate) mod c11;
